@@ -73,9 +73,31 @@ RelEq(p, c, x, y) == IF x = y THEN {} ELSE
 \* expected TwoFloat `want` (computed from memo entries) against the result r
 RelTF(p, c, r, want) == IF r.t = "tf" THEN RelEq(p, c, r.x, want) ELSE Fail(p, c)
 
+IntArg(neg, mag) == [t |-> "i", ty |-> "i32", neg |-> neg, mag |-> mag]
 RelationFails(op, A, r) ==
-  IF r.t # "tf" THEN {} ELSE
-  CASE op = "add" /\ A[1].t = "tf" /\ A[2].t = "tf" ->
+  IF r.t = "tf2" THEN
+     (IF op = "sin_cos" THEN
+        (IF Has("sin", <<A[1]>>) THEN RelEq("C16", "sin_cos_is_sin", r.x, GotTF("sin", <<A[1]>>)) ELSE {})
+        \cup (IF Has("cos", <<A[1]>>) THEN RelEq("C16", "sin_cos_is_cos", r.y, GotTF("cos", <<A[1]>>)) ELSE {})
+      ELSE {})
+  ELSE IF r.t # "tf" THEN {} ELSE
+  CASE op = "log" ->
+         (IF Has("ln", <<A[1]>>) /\ Has("ln", <<A[2]>>)
+          THEN LET q == <<TFArg(GotTF("ln", <<A[1]>>)), TFArg(GotTF("ln", <<A[2]>>))>> IN
+               (IF Has("div", q) THEN RelEq("C15", "log_is_ln_quotient", r.x, GotTF("div", q)) ELSE {})
+          ELSE {})
+    [] op = "log10" ->
+         (IF Has("ln", <<A[1]>>) /\ Has("const", <<[t |-> "s", v |-> "LN_10"]>>)
+          THEN LET q == <<TFArg(GotTF("ln", <<A[1]>>)), TFArg(GotTF("const", <<[t |-> "s", v |-> "LN_10"]>>))>> IN
+               (IF Has("div", q) THEN RelEq("C15", "log10_is_ln_over_ln10", r.x, GotTF("div", q)) ELSE {})
+          ELSE {})
+    [] op = "powi" /\ A[2].neg /\ A[2].mag # <<>> ->
+         \* powi(x, -n) == powi(x, n).recip()
+         (IF Has("powi", <<A[1], IntArg(FALSE, A[2].mag)>>)
+          THEN LET p == <<TFArg(GotTF("powi", <<A[1], IntArg(FALSE, A[2].mag)>>))>> IN
+               (IF Has("recip", p) THEN RelEq("C13", "powi_negative_is_recip", r.x, GotTF("recip", p)) ELSE {})
+          ELSE {})
+    [] op = "add" /\ A[1].t = "tf" /\ A[2].t = "tf" ->
          (IF Has("add", <<A[2], A[1]>>) THEN RelEq("C10", "add_commutes", r.x, GotTF("add", <<A[2], A[1]>>)) ELSE {})
          \cup (IF Has("sub", <<A[1], TFArg(NegTF(A[2].x))>>)
                THEN RelEq("C10", "sub_is_add_neg", r.x, GotTF("sub", <<A[1], TFArg(NegTF(A[2].x))>>)) ELSE {})
